@@ -362,7 +362,7 @@ def route_job(args):
                     kind = fn if fn.startswith("_") or fn.startswith("cm-") else ("part file" if root != d or fn.startswith("part.") else "single file")
                     if fn.startswith("cm-"):
                         kind = "written by write_common_metadata"
-                    arts.append((kind, data[len(data) - 8 - n:len(data) - 8]))
+                    arts.append((kind, data[len(data) - 8 - n:len(data) - 8], root))
         return arts
 
     for pi, P in enumerate(programs):
@@ -376,6 +376,12 @@ def route_job(args):
                     path = os.path.join(d, "data.parquet")
                     fp.write(path, _frame(pd, 0, 6), row_group_offsets=[0, 3], write_index=False,
                              custom_metadata=dict(LIB_KV))
+                elif P["store"] == "nested":
+                    # two multi-file datasets, each with its own _metadata, side by side: opened / merged as one
+                    path = os.path.join(d, "ds")
+                    for k, sub in enumerate(("a", "b")):
+                        fp.write(os.path.join(path, sub), _frame(pd, 6 * k, 6), row_group_offsets=[0, 3], write_index=False,
+                                 file_scheme="hive", custom_metadata=dict(LIB_KV))
                 else:
                     path = os.path.join(d, "ds")
                     fp.write(path, _frame(pd, 0, 6), row_group_offsets=[0, 3], write_index=False, file_scheme="hive",
@@ -389,8 +395,9 @@ def route_job(args):
                     os.makedirs(path)
                     for g in range(2):
                         open(os.path.join(path, "part.%d.parquet" % g), "wb").write(_foreign_file(3 * g, 1))
-            pf = fp.ParquetFile(path)
-            steps = [("source", [3, 3])] + list(zip(P["prog"], P["hist"]))
+            nested = P["store"] == "nested"
+            pf = fp.ParquetFile([os.path.join(path, "a"), os.path.join(path, "b")]) if nested else fp.ParquetFile(path)
+            steps = [("source", [3, 3, 3, 3] if nested else [3, 3])] + list(zip(P["prog"], P["hist"]))
             kvs = [P["kv0"]] + list(P["kvhist"])
             derived = False
             for si, (op, want_rgs) in enumerate(steps):
@@ -412,6 +419,9 @@ def route_job(args):
                     elif op == "remove":
                         pf.remove_row_groups(pf.row_groups[0:1])
                         pf = fp.ParquetFile(path)
+                    elif op == "merge" and nested:
+                        W.merge([os.path.join(path, "a"), os.path.join(path, "b")])
+                        pf = fp.ParquetFile(path)
                     elif op == "merge":
                         parts = sorted(os.path.join(r, f) for r, _, fs in os.walk(path) for f in fs
                                        if f.endswith(".parquet") and not f.startswith("_"))
@@ -424,7 +434,9 @@ def route_job(args):
                     out["refused"]["%s/%s" % (src, op)] = type(e).__name__
                     break
                 out["executed"]["%s/%s" % (src, op)] = out["executed"].get("%s/%s" % (src, op), 0) + 1
-                for kind, b in artefacts(d, pf):
+                for art in artefacts(d, pf):
+                    kind, b = art[0], art[1]
+                    adir = art[2] if len(art) > 2 else None
                     a_sig = dict(sig, artefact=kind)
                     if isinstance(b, BaseException):
                         out["viol"].append((dict(a_sig, what="serialisation raised", exc=type(b).__name__), pi))
@@ -437,7 +449,17 @@ def route_job(args):
                         if end != len(b):
                             out["viol"].append((dict(a_sig, what="trailing bytes after the serialised struct"), pi))
                         got = [int(rg["num_rows"]) for rg in back.get("row_groups", [])]
-                        if (kind in ("handle", "pickled-handle") or (kind in ("_metadata", "single file") and not derived)) \
+                        if kind == "_metadata" and adir is not None:
+                            # a summary file names the data file of every column chunk, relative to its own directory
+                            for rg in back.get("row_groups", []):
+                                fps = [c.get("file_path") for c in rg.get("columns", [])]
+                                fps = [x.decode("utf8", "replace") if isinstance(x, (bytes, bytearray)) else x for x in fps]
+                                if fps and fps[0] is not None and (len(set(fps)) != 1 or not os.path.isfile(os.path.join(adir, fps[0]))):
+                                    out["viol"].append((dict(a_sig, what="file_path of a column chunk in the summary file does not name "
+                                                                    "the row group's data file"), pi))
+                                    break
+                        if (kind in ("handle", "pickled-handle") or (kind in ("_metadata", "single file") and not derived
+                                                                     and (not nested or adir == path))) \
                                 and got != list(want_rgs):
                             out["viol"].append((dict(a_sig, what="serialised metadata does not carry the handle's row groups"), pi))
                         if P["store"] == "simple" and (kind in ("handle", "pickled-handle") or (kind == "single file" and not derived)):
